@@ -12,10 +12,10 @@ from sa.rules.common import calls_named, compose_operands, rtext
 from sa.selftest import Edit, Variant
 from sa.sym import ClassRef, Cond, Ext, Interp, PyCallable, Rec, SymStr, Undecided, Unknown, closure_of, explore, method_of, to_rf
 
-from sa.texts import T as _T
+from sa.texts import T as _TX
 
-EXPLANATION = _T["C06"]["explanation"] + " Not decided: " + _T["C06"]["not_decided"] + "."
-ASSUMPTIONS = _T["C06"]["assumptions"]
+EXPLANATION = _TX["C06"]["explanation"] + " Not decided: " + _TX["C06"]["not_decided"] + "."
+ASSUMPTIONS = _TX["C06"]["assumptions"]
 P = "C06"
 S = RF.sym
 
